@@ -209,7 +209,8 @@ def gen_ops(rng, init, n, alphabet, interior_removal=True):
                 op["s"], op["e"] = max(op["s"], op["e"]) + 1, min(op["s"], op["e"]) - 1
         elif kind == "updateCoords":
             # maps that move every coordinate, and maps that move one coordinate past its neighbours and leave the rest alone
-            op.update(fn=rng.choice(["shift", "double", "reverse", "neg", "move-one", "move-one", "swap-two"]), depth=rng.randint(0, max(0, depth - 1)),
+            op.update(fn=rng.choice(["shift", "double", "reverse", "neg", "move-one", "move-one", "swap-two", "reverse-bad-shape", "to-tuple"]),
+                      depth=rng.randint(0, max(0, depth - 1)),
                       k=rng.randrange(8), to=rng.choice([-1, 1, 2, 3]))
         elif kind == "updatePayloads":
             op.update(fn=rng.choice(["inc", "box-inc", "zero", "same", "elem-op"]), depth=rng.randint(0, max(0, depth - 1)))
@@ -570,6 +571,21 @@ def apply_op(ctx, op):
             return "skip"
         if not f.coords:
             return "skip"
+        if fn in ("reverse-bad-shape", "to-tuple"):
+            # an order-changing map in a call that the method rejects at its end (the new shape does not fit the coordinates):
+            # whatever it did before failing must leave well-formed fibers
+            if dd > 0 or not all(isinstance(c, int) for c in f.coords):
+                return "skip"
+            try:
+                if fn == "reverse-bad-shape":
+                    f.updateCoords(lambda i, c, p: K - c, depth=0, new_shape=(K, K))
+                else:
+                    f.updateCoords(lambda i, c, p: (K - c, 0), depth=0)
+            except AssertionError as e:
+                H.unexpected(kind + ":rejected-at-the-end", ctx, e)
+            # the call may have left coordinates of another type / a shape of another type behind: the history ends here
+            H.quiescent("updateCoords:rejected-at-the-end", ctx)
+            raise StopHistory()
         if fn in ("move-one", "swap-two"):
             # the coordinate at one index jumps past `to` neighbours (landing in a gap beyond them); "swap-two": two adjacent
             # coordinates trade places.  Indices are those of the fibers at the updated depth.
@@ -579,10 +595,11 @@ def apply_op(ctx, op):
                 if not isinstance(c, int):
                     return c
                 if fn == "swap-two":
-                    return c + 1001 if i == kk % 3 else (c + 1000 if i == kk % 3 + 1 else c + 1000 * (i > kk % 3 + 1) * 2)
-                return c + 1000 * to + 1 if i == kk % 3 else c
-            # coordinates are spread first so that the jump lands strictly between / beyond other coordinates (no collisions)
-            f.updateCoords(lambda i, c, p: c * 1000 if isinstance(c, int) else c, depth=dd)
+                    return c + 9 if i == kk % 3 else c             # one coordinate jumps over up to two neighbours
+                return c + 4 * to + 1 if i == kk % 3 else c
+            # coordinates are spread first (x4) so that the jump lands strictly between / beyond other coordinates (no collisions;
+            # a small factor: extents grow with every such step and dense reference iteration later walks the whole extent)
+            f.updateCoords(lambda i, c, p: c * 4 if isinstance(c, int) else c, depth=dd)
             H.quiescent("updateCoords:spread", ctx)
             f.updateCoords(mv, depth=dd)
             return
